@@ -36,6 +36,64 @@ func init() {
 		}
 		return eSimple(o.T.String())
 	})
+	// SCAN: cursors are opaque; what can be said about one call is that every
+	// returned key exists now (a key whose deadline has passed does not), passes
+	// MATCH and TYPE, and that a call which starts at 0 and comes back with 0
+	// has returned every such key.
+	reg("scan", -2, false, func(m *Model, s *Sess, a []string, _ bool) Expect {
+		pattern, typ := "*", ""
+		for i := 2; i+1 < len(a); i += 2 {
+			switch upper(a[i]) {
+			case "MATCH":
+				pattern = a[i+1]
+			case "TYPE":
+				typ = strings.ToLower(a[i+1])
+			case "COUNT":
+			default:
+				return Expect{Mode: exAny}
+			}
+		}
+		if len(a)%2 != 0 {
+			return Expect{Mode: exAny}
+		}
+		want, optional := map[string]bool{}, map[string]bool{}
+		for k, o := range m.db(s) {
+			if globMatch(pattern, k) && (typ == "" || o.T.String() == typ) {
+				want[k] = true
+				if o.Exp != 0 && m.now >= o.Exp {
+					optional[k] = true // inside the tolerance of its deadline
+				}
+			}
+		}
+		start := a[1]
+		return ePred("SCAN result consistent with the keyspace", func(got Value) error {
+			if got.IsErr() {
+				return nil // argument errors are not this model's business
+			}
+			if got.K != KArray || len(got.A) != 2 || got.A[1].K != KArray {
+				return errf("expected [cursor, [keys]]")
+			}
+			seen := map[string]bool{}
+			for _, e := range got.A[1].A {
+				if !want[e.S] {
+					return errf("returned %q, which is not a live key matching MATCH %q TYPE %q", e.S, pattern, typ)
+				}
+				seen[e.S] = true
+			}
+			next := got.A[0].S
+			if got.A[0].K == KInt {
+				next = strconv.FormatInt(got.A[0].I, 10)
+			}
+			if start == "0" && next == "0" {
+				for k := range want {
+					if !seen[k] && !optional[k] {
+						return errf("complete iteration in one call did not return %q", k)
+					}
+				}
+			}
+			return nil
+		})
+	})
 	reg("rename", 3, true, func(m *Model, s *Sess, a []string, _ bool) Expect {
 		o := m.get(s, a[1])
 		if o == nil {
